@@ -47,7 +47,7 @@ fn required_clauses(p: u32) -> Vec<&'static str> {
         10 => vec!["C10.after-abort"],
         11 => vec!["C11.executed", "C11.skipped"],
         12 => vec!["C12.noop-terminal"],
-        13 => vec!["C13.offered", "C13.must-be-offered"],
+        13 => vec!["C13.offered", "C13.must-be-offered", "C13.offer-moment"],
         14 => vec!["C14.config-with-ff-terminal", "C14.declaration-order-variant"],
         15 => vec!["C15.twin-pair-with-noisy-history"],
         16 => vec!["C16.validated-ephemeral-reexecuted", "C16.changed-output-state", "C16.changed-output-terminal"],
